@@ -4,5 +4,5 @@
 EXTENDS SetAlgebra, SetAlgebraU
 CONSTANT MaxDepth
 MCNext == TLCGet("level") < MaxDepth /\ Next
-HsView == hs
+HsView == <<hs, reg>>
 =============================================================================
